@@ -110,7 +110,11 @@ impl SubCheck for Sub {
         let z = c.zone.zone();
         let tz = c.zone.timezone();
         let prov = c.zone.provider();
-        let mut o = Outcome::pass();
+        let mut o = Outcome::pass().class(match c.zone {
+            ZoneKind::Fixed(_) => "zone:fixed-offset",
+            ZoneKind::Table(_) => "zone:table",
+            ZoneKind::Real { .. } => "zone:real-iana-bundled-provider",
+        });
         let zdt = match ZonedDateTime::try_new(c.t1, iso(), tz.clone()) {
             Ok(v) => v,
             Err(e) => return o.fail("C14/construct", "Ok", err_str(&e)),
@@ -431,6 +435,17 @@ fn zone_kind() -> BoxedStrategy<ZoneKind> {
         1 => (-1439i32..=1439).prop_map(ZoneKind::Fixed),
         6 => syn_zone().prop_map(ZoneKind::Table),
         4 => proptest::sample::select(shaped).prop_map(ZoneKind::Table),
+        // real IANA zones end to end through the crate's bundled provider; the oracle uses the zone's full listed
+        // TZif table (harness reader); `case()` keeps every instant well before the end of that table
+        3 => any::<u16>().prop_map(|zi| {
+            let tabs = crate::props::c13::real_tables();
+            if tabs.is_empty() {
+                ZoneKind::Fixed(0)
+            } else {
+                let z = &tabs[zi as usize % tabs.len()];
+                ZoneKind::Real { name: z.name.clone(), window: z.clone() }
+            }
+        }),
     ]
     .boxed()
 }
@@ -503,6 +518,24 @@ pub fn case() -> BoxedStrategy<Case> {
                 _ => t1 + d2sec * S * 40_000,
             }
             .clamp(-MAX_INSTANT + 3 * DAY, MAX_INSTANT - 3 * DAY);
+            // real zone: the oracle only knows the listed table; stay 8 years before its end (durations are cut to
+            // < 6 years below) and after 1800
+            let is_real = matches!(zone, ZoneKind::Real { .. });
+            let (t1, t2, dur, dur2) = if is_real && n >= 3 {
+                let hi = z.trans[n - 1].0 as i128 * S - 8 * 366 * DAY;
+                let lo = (z.trans[0].0 as i128 * S - 400 * DAY).max(-5_364_662_400i128 * S);
+                let hi = hi.max(lo + DAY);
+                let cut = |mut d: Dur| {
+                    d.f[0] = d.f[0].clamp(-2, 2);
+                    d
+                };
+                let fold = |t: i128| if t < lo || t > hi { lo + (t - lo).rem_euclid(hi - lo) } else { t };
+                // anchors near the end of the table fold back to an earlier transition
+                let t1f = if t1 > hi { let i = ti * (n - 1) / 64 / 2; z.trans[i].0 as i128 * S + delta } else { t1 };
+                (fold(t1f), fold(t2 - t1 + fold(t1f)), cut(dur), cut(dur2))
+            } else {
+                (t1, t2, dur, dur2)
+            };
             let op = [Op::Add, Op::Add, Op::Subtract, Op::Until, Op::Until, Op::Until, Op::Since, Op::Since, Op::StartOfDay, Op::HoursInDay, Op::WithPlainTime, Op::DateOnlyString, Op::DurRound, Op::DurRound, Op::DurTotal, Op::DurCompare][opk as usize];
             Case { zone, op, t1, t2, dur, dur2, largest, smallest, inc, mode, reject, tod }
         })
@@ -511,7 +544,7 @@ pub fn case() -> BoxedStrategy<Case> {
 }
 
 pub fn run(ctx: &mut Ctx) {
-    ctx.rule = "zones as in C13 (fixed offsets, synthetic rule tables with shifts from 1 minute to 26 h, tables shaped like New York / Lord Howe / Apia / Dublin / Kolkata / Kiritimati) served through the harness provider; instants within +-2 days of a transition (edges +-1 ns) paired with a second instant 0 ns .. decades away in both orders; ops: add/subtract (date units on the wall clock re-resolved compatible, time units exact), until/since with time largest units (exact elapsed, rounded) and date largest units (reference DifferenceZonedDateTime + RoundRelativeDuration on the rule table, plus oracle-free laws: sign-uniform, receiver.add(result) == other, time part shorter than a local day), start_of_day, hours_in_day (whole-hour days; fractional-hour days executed but unjudged because the API returns an integer), with_plain_time, date-only strings, Duration round/total/compare relative to a ZonedDateTime. non-trivial = the pair straddles a transition, the local day is not 24 h, or negative direction with reversed time-of-day order.".into();
+    ctx.rule = "zones as in C13 (fixed offsets, synthetic rule tables with shifts from 1 minute to 26 h, tables shaped like New York / Lord Howe / Apia / Dublin / Kolkata / Kiritimati) served through the harness provider, plus every real IANA zone end to end through the crate's bundled provider (oracle table = the zone's listed TZif transitions read by the harness's own reader; instants at least 8 years before the end of the table); instants within +-2 days of a transition (edges +-1 ns) paired with a second instant 0 ns .. decades away in both orders; ops: add/subtract (date units on the wall clock re-resolved compatible, time units exact), until/since with time largest units (exact elapsed, rounded) and date largest units (reference DifferenceZonedDateTime + RoundRelativeDuration on the rule table, plus oracle-free laws: sign-uniform, receiver.add(result) == other, time part shorter than a local day), start_of_day, hours_in_day (whole-hour days; fractional-hour days executed but unjudged because the API returns an integer), with_plain_time, date-only strings, Duration round/total/compare relative to a ZonedDateTime. non-trivial = the pair straddles a transition, the local day is not 24 h, or negative direction with reversed time-of-day order.".into();
     ctx.assumptions = vec![
         "provider contract as in C13 (tzp.rs)".into(),
         "rule sets for which the specification's own day-correction loop does not converge are unjudged (counted)".into(),
